@@ -141,14 +141,15 @@ def fwd_predicates(c: Ctx) -> list[tuple[Unit, ast.AST, str]]:
     'EventBus method that enqueues; the class has no alias of it that would escape the predicate')
 def c07_3(c: Ctx) -> None:
     preds = fwd_predicates(c)
-    c.floor(len(preds), 1, 'forwarding-handler predicates in _would_create_loop')
+    if not preds:
+        c.note('no self-contained forwarding predicate expression in _would_create_loop (folded into helpers / named steps): the classification is decided by C07.2 alone')
     kinds = [
         ('bound dispatch of an EventBus', Rec(__self__=Rec(name='B', _cls='EventBus'), __name__='dispatch'), True),
         ('bound dispatch of a non-bus object', Rec(__self__=Rec(name='B', _cls='Other'), __name__='dispatch'), False),
         ('other bound method of an EventBus', Rec(__self__=Rec(name='B', _cls='EventBus'), __name__='on_event'), False),
         ('plain function', Rec(__name__='dispatch'), False),
     ]
-    w = preds[0][0]
+    w = c.unit(SVC, 'EventBus._would_create_loop')
     hp = w.params()[2]
     for u, expr, label in preds:
         for desc, h, want in kinds:
